@@ -114,8 +114,13 @@ class _Stats:
         self.best_fail = None
         self.harness_error = None
         self.first_fail_t = None
+        self.cov = set()
 
     def record(self, case, res):
+        cov = [c for c in res.classes if c.startswith("#cov:")]
+        if cov:
+            self.cov.update(cov)
+            res.classes = [c for c in res.classes if not c.startswith("#cov:")]
         self.evaluations += 1
         h = None
         if res.nontrivial:
@@ -150,7 +155,8 @@ def _shard(args):
     modname, subname, n, hseed, do_shrink = args
     t0 = time.time()
     out = {"sub": subname, "evaluations": 0, "nontrivial": set(), "classes": Counter(), "samples": {},
-           "known": Counter(), "excluded": Counter(), "violation": None, "harness_error": None, "wall": 0.0}
+           "known": Counter(), "excluded": Counter(), "violation": None, "harness_error": None, "wall": 0.0,
+           "cov": set()}
     try:
         import importlib
         mod = importlib.import_module(modname)
@@ -201,7 +207,7 @@ def _shard(args):
             del e
         out.update(evaluations=stats.evaluations, nontrivial=stats.nontrivial, classes=stats.classes,
                    samples=stats.samples, known=stats.known, excluded=stats.excluded,
-                   harness_error=stats.harness_error)
+                   harness_error=stats.harness_error, cov=stats.cov)
         if stats.best_fail is not None:
             out["violation"] = {"case": to_jsonable(stats.best_fail[0]), "violation": to_jsonable(stats.best_fail[1])}
     except BaseException:   # pylint: disable=broad-except
@@ -237,7 +243,7 @@ def run_property(mod, tier, only=None, scale=1.0):
     corpus_viol = []
     corpus_runs = 0
     agg = {s.name: {"evaluations": 0, "nontrivial": set(), "classes": Counter(), "samples": {}, "known": Counter(),
-                    "excluded": Counter(), "wall": 0.0} for s in subs}
+                    "excluded": Counter(), "wall": 0.0, "cov": set()} for s in subs}
     harness_errors = []
     violations = []
     for sc in subs:
@@ -275,6 +281,7 @@ def run_property(mod, tier, only=None, scale=1.0):
             a["known"].update(out["known"])
             a["excluded"].update(out["excluded"])
             a["wall"] += out["wall"]
+            a["cov"] |= out.get("cov", set())
             for c, lst in out["samples"].items():
                 cur = a["samples"].setdefault(c, [])
                 for s in lst:
@@ -341,6 +348,7 @@ def run_property(mod, tier, only=None, scale=1.0):
             "subchecks": {name: {"evaluations": a["evaluations"], "distinct_nontrivial": len(a["nontrivial"]),
                                  "classes": dict(a["classes"].most_common()),
                                  "excluded": dict(a["excluded"]), "known_finding_hits": dict(a["known"]),
+                                 "distinct_coverage_items": len(a["cov"]),
                                  "cpu_s": round(a["wall"], 1)} for name, a in agg.items()},
             "regression_corpus_cases": corpus_runs,
             "exhaustive": False,
